@@ -274,7 +274,7 @@ class Inliner(object):
             if d.get('k') == 'var':
                 if d.get('vk') == 'param' and d['n'] in subst:
                     return copy.deepcopy(subst[d['n']])
-                if d['n'] in locals_ or (d.get('vk') == 'local'):
+                if d['n'] in locals_ or (d.get('vk') == 'local' and not G.get('lambda')):     # a lambda's other locals are captures
                     r = dict(d)
                     r['n'] = ret_var['n'] if (same_local is not None and d['n'] == same_local) else d['n'] + sfx
                     return r
@@ -397,6 +397,7 @@ class Inliner(object):
                                     if ne.get('k') == 'call':
                                         ne['inl_depth'] = max(ne.get('inl_depth', 0), d + 1)
                             self.inlined_sites[e['fn']] = self.inlined_sites.get(e['fn'], 0) + 1
+                            F['has_inlined'] = True
                             progress = True
                             break
                     if progress:
@@ -419,12 +420,17 @@ class Inliner(object):
 
 def inline_helpers(facts):
     """Returns (facts with helpers inlined, report)."""
+    ndes = desugar_algorithms(facts)
     inl = Inliner(facts)
     inl.orig = copy.deepcopy({fid: facts['functions'][fid] for fid in inl.helpers})
     removed = inl.run()
     nprop = propagate_new_locals(facts)
+    if inl.inlined_sites:
+        for F in facts['functions'].values():
+            if F.get('has_inlined'):
+                simplify_addr(F)
     return facts, {'helpers': sorted(facts_name for facts_name in removed), 'sites': sum(inl.inlined_sites.values()),
-                   'locals_propagated': nprop}
+                   'locals_propagated': nprop, 'algorithms_desugared': ndes}
 
 
 # ---- copy propagation of new single-definition locals --------------------------------------------
@@ -546,4 +552,148 @@ def propagate_new_locals(facts):
                 b['term'] = _map(b['term'], rep_all)
         n += len(subst)
         F.setdefault('propagated', []).extend(sorted(subst))
+        simplify_addr(F)
+    return n
+
+
+def _addr_of(d):
+    while isinstance(d, dict) and d.get('k') == 'cast':
+        d = d.get('e')
+    if isinstance(d, dict) and d.get('k') == 'un' and d.get('op') == '&' and isinstance(d.get('e'), dict):
+        return d['e']
+    return None
+
+
+def simplify_addr(F):
+    """After substituting `p := &x`: `*(&x)` is x, `(&x)->m` is x.m, `(&x)->f()` is x.f()."""
+    def simp(d):
+        if isinstance(d, list):
+            return [simp(x) for x in d]
+        if not isinstance(d, dict):
+            return d
+        d = {k: simp(v) for k, v in d.items()}
+        k = d.get('k')
+        if k == 'un' and d.get('op') == '*' and _addr_of(d.get('e')) is not None:
+            return _addr_of(d['e'])
+        if k == 'mem' and d.get('arrow') and _addr_of(d.get('b')) is not None:
+            d = dict(d, b=_addr_of(d['b']))
+            d.pop('arrow', None)
+            return d
+        if k == 'call' and _addr_of(d.get('recv')) is not None:
+            return dict(d, recv=_addr_of(d['recv']))
+        return d
+    for b in F['blocks']:
+        b['ev'] = [simp(e) for e in b['ev']]
+        if 'term' in b:
+            b['term'] = simp(b['term'])
+
+
+# ---- std::all_of / any_of / none_of with a lambda -> the loop they stand for -----------------------
+ALGO = {'all_of': ('all', True), 'any_of': ('any', False), 'none_of': ('none', True)}
+
+
+def desugar_algorithms(facts):
+    """`std::all_of(b, e, [..](T x){..})` (any_of, none_of) in a function the rules know is rewritten
+    into the loop it abbreviates - `for (it = b; it != e; ++it) if (!pred(*it)) {r = false; break;}` -
+    so that loop rules and guard facts see the same thing as for a hand-written loop.  The lambda call
+    in the loop body is then inlined like any other new helper."""
+    n = 0
+    for fid, F in facts['functions'].items():
+        changed = True
+        rounds = 0
+        while changed and rounds < 8:
+            changed = False
+            rounds += 1
+            for B in F['blocks']:
+                for ei, E in enumerate(B['ev']):
+                    if E.get('k') != 'call':
+                        continue
+                    last = (E.get('name') or '').split('<')[0].split('::')[-1]
+                    if not (E.get('name') or '').startswith('std::') or last not in ALGO:
+                        continue
+                    args = E.get('args') or []
+                    if len(args) != 3 or not (isinstance(args[2], dict) and args[2].get('k') == 'lambda' and args[2].get('fn') in facts['functions']):
+                        continue
+                    lam = facts['functions'][args[2]['fn']]
+                    if len(lam.get('params') or []) != 1:
+                        continue
+                    n += 1
+                    k = 'alg%d' % n
+                    base = max(b['id'] for b in F['blocks']) + 1
+                    H, BODY, STEP, XT, XF, CONT = base, base + 1, base + 2, base + 3, base + 4, base + 5
+                    it = {'k': 'var', 'n': 'it@' + k, 'vk': 'local', 'tk': 'record', 'ty': 'iterator'}
+                    res = {'k': 'var', 'n': 'res@' + k, 'vk': 'local', 'tk': 'bool', 'ty': 'bool'}
+                    elem = {'k': 'call', 'name': 'iterator::operator*', 'op': '*', 'recv': dict(it), 'args': [], 'tk': lam['params'][0].get('tk')}
+                    pred = {'k': 'call', 'name': lam['name'], 'fn': lam['id'], 'op': '()', 'args': [elem], 'tk': 'bool', 'line': E.get('line')}
+                    cmp_ = {'k': 'call', 'name': 'operator!=', 'op': '!=', 'args': [dict(it), copy.deepcopy(args[1])], 'tk': 'bool'}
+                    kind, _ = ALGO[last]
+                    line = E.get('line')
+                    # exits: loop exhausted / predicate decided
+                    exhausted_val = kind in ('all', 'none')
+                    decided_val = not exhausted_val
+                    # which predicate outcome ends the loop early
+                    early_on_true = kind in ('any', 'none')
+                    cont = {'id': CONT, 'ev': B['ev'][ei + 1:], 'succ': B.get('succ', [])}
+                    if 'term' in B:
+                        cont['term'] = B['term']
+                        del B['term']
+                    key = _call_key(E)
+
+                    def repl(d, key=key, fnid=E.get('fn')):
+                        if d.get('k') == 'call' and d.get('fn') == fnid and _call_key(d) == key:
+                            return dict(res)
+                        return None
+                    cont['ev'] = [{kk: _map(vv, repl) for kk, vv in e.items()} for e in cont['ev']]
+                    if 'term' in cont:
+                        cont['term'] = _map(cont['term'], repl)
+                    # drop the now unused `fnref` of the lambda in front of the call
+                    pre = [e for e in B['ev'][:ei] if not (e.get('k') == 'fnref' and e.get('fn') == lam['id'])]
+                    B['ev'] = pre + [{'k': 'decl', 'n': it['n'], 'init': copy.deepcopy(args[0]), 'ty': 'iterator', 'tk': 'record', 'line': line,
+                                      'src': 'it = <first>'}]
+                    B['succ'] = [H]
+                    blocks = [
+                        {'id': H, 'ev': [dict(cmp_, line=line, src='it != <last>')], 'succ': [BODY, XT if exhausted_val else XF],
+                         'term': {'kind': 'for', 'cond': cmp_, 'line': line, 'src': 'it != <last>'}},
+                        {'id': BODY, 'ev': [dict(pred, src='pred(*it)')], 'succ': ([XT if decided_val else XF, STEP] if early_on_true else
+                                                                                  [STEP, XT if decided_val else XF]),
+                         'term': {'kind': 'if', 'cond': {kk: vv for kk, vv in pred.items() if kk != 'line'}, 'line': line, 'src': 'pred(*it)'}},
+                        {'id': STEP, 'ev': [{'k': 'asg', 'op': '++', 'l': dict(it), 'line': line, 'src': '++it'}], 'succ': [H]},
+                        {'id': XT, 'ev': [{'k': 'asg', 'op': '=', 'l': dict(res), 'r': {'k': 'bool', 'v': True}, 'line': line, 'src': 'result = true',
+                                           'inl_ret': last}], 'succ': [CONT]},
+                        {'id': XF, 'ev': [{'k': 'asg', 'op': '=', 'l': dict(res), 'r': {'k': 'bool', 'v': False}, 'line': line, 'src': 'result = false',
+                                           'inl_ret': last}], 'succ': [CONT]},
+                    ]
+                    # thread the constant results into a continuation that only branches on them
+                    if not cont['ev'] and 'term' in cont and len(cont.get('succ', [])) == 2 and \
+                            any(x.get('k') == 'var' and x.get('n') == res['n'] for x in _walk(cont['term'].get('cond'))):
+                        for xb in blocks[3:]:
+                            val = xb['ev'][0]['r']
+
+                            def thr(d, val=val):
+                                if d.get('k') == 'var' and d.get('n') == res['n']:
+                                    return dict(val)
+                                return None
+                            xb['term'] = _map(copy.deepcopy(cont['term']), thr)
+                            xb['succ'] = list(cont['succ'])
+                    # `return all_of(...)`: each exit returns its constant
+                    if len(cont['ev']) == 1 and cont['ev'][0].get('k') == 'ret' and isinstance(cont['ev'][0].get('e'), dict) and \
+                            cont['ev'][0]['e'].get('k') == 'var' and cont['ev'][0]['e'].get('n') == res['n']:
+                        for xb in blocks[3:]:
+                            val = xb['ev'][0]['r']
+                            xb['ev'] = [dict(cont['ev'][0], e=dict(val), src='return %s' % ('true' if val['v'] else 'false'))]
+                            xb['succ'] = list(cont['succ'])
+                    F['blocks'].extend(blocks)
+                    F['blocks'].append(cont)
+                    # the same substitution everywhere else in the function
+                    for b2 in F['blocks']:
+                        if b2['id'] >= base:
+                            continue
+                        b2['ev'] = [{kk: _map(vv, repl) for kk, vv in e.items()} for e in b2['ev']]
+                        if 'term' in b2:
+                            b2['term'] = _map(b2['term'], repl)
+                    F.setdefault('desugared', []).append(last)
+                    changed = True
+                    break
+                if changed:
+                    break
     return n
